@@ -85,6 +85,17 @@ def detect(name, tier='quick', props=None):
                 except Exception:
                     pass
             meta['detected_by']['%s/%s' % (p, tier)] = res
+            # keep the failing input as a corpus case of that property: it runs first on every later run
+            if vio and 'replay=' in vio[0]:
+                try:
+                    rj = json.load(open(vio[0].split('replay=')[1].split()[0]))
+                    if isinstance(rj.get('case'), (dict, list)):
+                        cdir = os.path.join(ROOT, 'corpus', p)
+                        os.makedirs(cdir, exist_ok=True)
+                        json.dump({'case': rj['case'], 'origin': 'failing input found for seeded change %s' % name},
+                                  open(os.path.join(cdir, 'seed-%s.json' % name), 'w'))
+                except Exception as e:
+                    print('corpus capture failed:', e)
             print(name, p, tier, '->', 'DETECTED' if rc == 1 and vio else 'MISSED', json.dumps(res)[:600])
     finally:
         sh('git -C /repo checkout -- .')
